@@ -11,7 +11,7 @@ CONSTANTS
   MaxOps = 2
   MaxSnaps = 1
   MaxRestarts = 1
-INVARIANTS NoTombLive GroupsValid GroupsFine EpochsFine FlagsConsistent
+INVARIANTS NoTombLive NoRecLive GroupsValid GroupsFine EpochsFine FlagsConsistent
 
 
 CHECK_DEADLOCK FALSE
